@@ -7,10 +7,11 @@ TRUST = ('trusted base: the independent reference definitions under vlib/ref (pi
          'CPython, hashlib/OpenSSL 3.0 as installed; sampling only where not marked exhaustive')
 # id -> (category, technique, text, note)
 CHECKS = {
- 'C01': ('exploration', 'Hypothesis-generated objects vs independent reference wire encoder/decoder; exhaustive prefix (truncation) and extension fault enumeration per encoding',
+ 'C01': ('exploration', 'Hypothesis-generated objects vs independent reference wire encoder/decoder; exhaustive prefix (truncation) and extension fault enumeration per encoding; coverage-guided (Atheris) byte-level mutation of valid encodings judged by a reference reader',
          'Byte-exact differential against a reference encoder written from the protocol description, field-exact round trip, and for every '
          'generated encoding every strict prefix (all of them up to 600 bytes) must raise exactly the truncation error and every extension '
-         'exactly the extra-data error carrying object and surplus.', TRUST),
+         'exactly the extra-data error carrying object and surplus. Raw mutated bytes: wherever the reference reader sees a valid encoding, a valid '
+         'encoding plus surplus or a strict prefix of valid encodings, the library must agree (object, error class, bytes consumed).', TRUST),
  'C02': ('exploration', 'Hypothesis metamorphic (witness swap) + differential vs reference dSHA256 of reference encodings; mutable/immutable pairing',
          'For each generated transaction all witness variants must share the reference txid while wtxid follows the full encoding; blocks hash '
          'their 80-byte header whatever they carry; immutable/mutable pairs agree on ids, ==, != and hash().', TRUST),
